@@ -80,18 +80,17 @@ def tag_text(a):
     return None
 
 
-def k1(case):
-    """empty diff for unequal values where a set member string spells the DeepHash
-    serialisation of a non-string set member (of either side)"""
-    if case.get("clause") != "empty diff but t1 != t2":
-        return False
-    t1, t2 = eval(case["t1"]), eval(case["t2"])
+def k1_feature(t1, t2):
+    """a set member string spells the DeepHash serialisation of a non-string set member (of either side)"""
     members = _set_members(t1, []) + _set_members(t2, [])
-    tags = {tag_text(x) for x in members} - {None}
+    try:
+        tags = {tag_text(x) for x in members} - {None}
+    except TypeError:
+        return False
     return any(isinstance(x, str) and x in tags for x in members)
 
 
-MATCHERS = {"K1": k1}
+MATCHERS = {}       # filled below: every finding of this property is matched by the counterfactual test of _explained_by
 
 
 # ---------------------------------------------------------------------------
@@ -720,8 +719,18 @@ def n_empty_array(v, in_set):
     return v
 
 
-NORMALISERS = {"C02-TIME-TZ-IN-SET": n_time_tz_in_set, "C02-NAIVE-AWARE": n_naive_is_utc,
+def n_tag_text(v, in_set):
+    """a non-string scalar inside a set member is hashed as the str spelling its type-tagged serialisation
+    (finding K1: None ~ 'NONE', 1 ~ 'int:1', True ~ 'bool:true', 1.5 ~ 'float:1.5')"""
+    if in_set and (v is None or isinstance(v, (bool, int, float))) and not isinstance(v, (datetime.date, datetime.time, datetime.timedelta)):
+        return tag_text(v)
+    return v
+
+
+NORMALISERS = {"K1": n_tag_text, "C02-TIME-TZ-IN-SET": n_time_tz_in_set, "C02-NAIVE-AWARE": n_naive_is_utc,
                "C02-SET-MEMBER-ORDER": n_member_order, "C02-EMPTY-ARRAY-SHAPE": n_empty_array}
+# the specific feature the inputs of a finding must show, besides the counterfactual test (lead's broadcast, point 1)
+FEATURES = {"K1": k1_feature}
 
 
 def _case_values(case):
@@ -743,6 +752,8 @@ def _explained_by(key):
             for k in keys:
                 a, b = _map(a, NORMALISERS[k]), _map(b, NORMALISERS[k])
             return deep_eq(a, b)
+        if key in FEATURES and not FEATURES[key](t1, t2):
+            return False
         allk = sorted(NORMALISERS)
         return norm(allk) and not norm([k for k in allk if k != key])
     return matcher
@@ -812,7 +823,7 @@ def replay_witnesses(ctx):
 
 def run(ctx):
     n_values = 1500 if ctx.thorough else 130
-    pairs = gen_model_pairs(ctx, n_values) + small_pairs(ctx, 450) + gen_alias_pairs(ctx, 3000 if ctx.thorough else 250) + gen_shared_pairs(ctx, 1500 if ctx.thorough else 120)
+    pairs = gen_model_pairs(ctx, n_values) + small_pairs(ctx, 450) + gen_alias_pairs(ctx, 3000 if ctx.thorough else 250) + gen_shared_pairs(ctx, 3000 if ctx.thorough else 260)
     cases, vcases, mcases = [], [], []
     pairs = [(stable_order(t1), stable_order(t2), kind, is_copy) for (t1, t2, kind, is_copy) in pairs]
     for i, (t1, t2, kind, is_copy) in enumerate(pairs):
@@ -826,6 +837,14 @@ def run(ctx):
         if "@" in kind:
             ctx.count("gen:moment_position:" + kind.split("@")[1])
         oracle_pair(ctx, t1, t2, is_copy, full_grid=False, stats_key="verdict_exotic", model_ok=False)
+    # numeric arrays INSIDE a model (Diff/NpModel.v np_run_diff): the same pairs go to the direct oracle and to the
+    # correspondence (complete tree view incl. index tuples and numpy-scalar leaves, text view, array_equal, tolist)
+    from harness import npcommon as NP
+    np_pairs = NP.gen_pairs(ctx.rng, 100 if ctx.thorough else 12)
+    for (a, b, kind, is_copy) in np_pairs:
+        ctx.count("gen:numpy_model:" + kind.split(":")[0])
+        oracle_pair(ctx, a, b, is_copy, full_grid=False, stats_key="verdict_numpy_model", model_ok=False)
+    NP.stream_c02(ctx, np_pairs)
     bytes_key_probe(ctx)
     replay_witnesses(ctx)
     for c in cases[:3]:
